@@ -398,6 +398,66 @@ func c18Distinct(c *lib.Ctx, onlyB string) {
 	}
 }
 
+// c18CrossKind: a series keeps its identity and its own events whatever OTHER series (another kind, a
+// related name such as <name>_duration, which is what a timer calls its histogram) is requested and
+// used in between: request A, record once, request B, record once, request A again.
+func c18CrossKind(c *lib.Ctx) {
+	type req struct{ kind, name string }
+	var reqs []req
+	for _, k := range []string{"counter", "gauge", "histogram", "timer"} {
+		for _, n := range []string{"m", "m_duration", "m_total"} {
+			reqs = append(reqs, req{k, n})
+		}
+	}
+	get := func(col *metrics.Collector, r req, tags map[string]string) (ptr any, record func(), count func() int64) {
+		switch r.kind {
+		case "counter":
+			m := col.Counter(r.name, tags)
+			return m, m.Inc, m.Value
+		case "gauge":
+			m := col.Gauge(r.name, tags)
+			return m, m.Inc, func() int64 { return int64(m.Value()) }
+		case "histogram":
+			m := col.Histogram(r.name, tags)
+			return m, func() { m.Observe(2) }, m.Count
+		default:
+			m := col.Timer(r.name, tags)
+			return m, func() { m.TimeFunc(func() {}) }, func() int64 { return m.Histogram().Count() }
+		}
+	}
+	for _, tags := range []map[string]string{nil, {"a": "1"}} {
+		for _, a := range reqs {
+			for _, b := range reqs {
+				col := metrics.NewCollector()
+				pa, recA, cntA := get(col, a, tags)
+				recA()
+				pb, recB, _ := get(col, b, tags)
+				recB()
+				pa2, _, cntA2 := get(col, a, tags)
+				c.Rep.Evaluations++
+				c.Count("cross_kind_sequences", 1)
+				want := int64(1)
+				if a == b {
+					want = 2
+				}
+				bad := ""
+				switch {
+				case pa2 != pa:
+					bad = "the second request returned a different metric"
+				case a == b && pb != pa:
+					bad = "the same request in between returned a different metric"
+				case cntA() != want || cntA2() != want:
+					bad = fmt.Sprintf("it reports %d events, %d were recorded in it", cntA(), want)
+				}
+				if bad != "" {
+					c.Violate(lib.Violation{Key: "cross-kind-interference", What: fmt.Sprintf("%s %q tags {%s}: requested, used once, then %s %q requested and used once, then requested again: %s",
+						a.kind, a.name, tagString(tags), b.kind, b.name, bad), Case: c18Case{Kind: "crosskind", Name: a.name, Type: a.kind, Tags: tags, Ops: []string{b.kind, b.name}}})
+				}
+			}
+		}
+	}
+}
+
 func c18Run(c *lib.Ctx) {
 	var idx int64
 	// identity
@@ -463,10 +523,13 @@ func c18Run(c *lib.Ctx) {
 		}
 		c.Count("accounting_sequences", 1)
 	}
+	if c.Mine(7) {
+		c18CrossKind(c)
+	}
 	// concurrent callers: the collector scenarios of the schedule explorer (engine E3, see c11.go)
 	w := newC11World(c)
 	for si, sc := range c11Scenarios() {
-		if sc.Name != "S5-collector-new-series" && sc.Name != "S9-counter-increments" && sc.Name != "S4-monitored-database" {
+		if sc.Name != "S5-collector-new-series" && sc.Name != "S9-counter-increments" && sc.Name != "S4-monitored-database" && sc.Name != "S12-histogram-observations" {
 			continue
 		}
 		if !c.Mine(int64(si)) {
@@ -492,7 +555,7 @@ func c18Run(c *lib.Ctx) {
 func init() {
 	lib.Register(&lib.Check{
 		ID: "C18", Level: "model_checking",
-		Rule:      "(identity) names {m, 'm:a=1', ''} x all 28 tag maps with <=3 tags over keys {a,b,c} and values {1,2} (plus nil and empty) x {counter, gauge, histogram, timer}: the metric is requested twice under EVERY assignment of iteration orders to the tag-map range points of the key computation (full DFS over the choice tree, all n! orders per point); both requests must return the same pointer, both events must land in it, GetAllMetrics must list one series; and every ordered pair of different tag maps under the plain name m are different series (different pointers, increments and observations do not leak). (monitor) every sequence of <=3 (quick) / <=5 (thorough) calls of RecordDatabaseOperation(load ok / load failed / save ok) and RecordSearchOperation(hit / miss / a hit that took no time and found nothing) and a load recorded with a negative duration, under every order assignment (cap 3000 schedules per sequence, reported): per-identity and total counts in the report equal the operations recorded, one series per identity. (accounting) every sequence of 4 (quick) / 6 (thorough) operations over {Inc, Add(3), Observe(0.125|0.0004|1.005|7|20000: binary fractions, values below and not a multiple of 1/1000, above the last bucket), Set(2.5), Reset}: counter, histogram count / exact sum / mean, gauge, percentile monotonicity and GetAllMetrics after every step. (concurrent) the collector scenarios of the schedule explorer: two goroutines creating the same new series + a third observing and listing (S5), three goroutines incrementing one counter / gauge (S9) under every interleaving with <=2 preemptions, monitored searches (S4) with <=1: same pointer, no lost increment, one series. states = cases; transitions = executions under distinct order assignments / schedules",
+		Rule:      "(identity) names {m, 'm:a=1', ''} x all 28 tag maps with <=3 tags over keys {a,b,c} and values {1,2} (plus nil and empty) x {counter, gauge, histogram, timer}: the metric is requested twice under EVERY assignment of iteration orders to the tag-map range points of the key computation (full DFS over the choice tree, all n! orders per point); both requests must return the same pointer, both events must land in it, GetAllMetrics must list one series; and every ordered pair of different tag maps under the plain name m are different series (different pointers, increments and observations do not leak); and every ordered pair of requests over {counter, gauge, histogram, timer} x {m, m_duration, m_total} (request A, use it, request B, use it, request A again: same metric, only its own events). (monitor) every sequence of <=3 (quick) / <=5 (thorough) calls of RecordDatabaseOperation(load ok / load failed / save ok) and RecordSearchOperation(hit / miss / a hit that took no time and found nothing) and a load recorded with a negative duration, under every order assignment (cap 3000 schedules per sequence, reported): per-identity and total counts in the report equal the operations recorded, one series per identity. (accounting) every sequence of 4 (quick) / 6 (thorough) operations over {Inc, Add(3), Observe(0.125|0.0004|1.005|7|20000: binary fractions, values below and not a multiple of 1/1000, above the last bucket), Set(2.5), Reset}: counter, histogram count / exact sum / mean, gauge, percentile monotonicity and GetAllMetrics after every step. (concurrent) the collector scenarios of the schedule explorer: two goroutines creating the same new series + a third observing and listing (S5), three goroutines incrementing one counter / gauge (S9), five observations of one histogram from three goroutines with a reader (S12: exact count and sum) under every interleaving with <=2 preemptions, monitored searches (S4) with <=1: same pointer, no lost increment, one series. states = cases; transitions = executions under distinct order assignments / schedules",
 		Assume:    []string{"only map ranges inside internal/metrics are explored here; dyadic observation values make the exact sum order-independent", "scheduling points = sync / atomic operations (build overlay shims); deeper bounds of the same scenarios run under C11"},
 		QuickSecs: 120, ThorSecs: 900, Graph: true,
 		Run: c18Run,
@@ -508,6 +571,17 @@ func init() {
 				return c18Monitor(c, cs, false)
 			case "accounting":
 				return c18Accounting(c, cs)
+			case "crosskind":
+				cc := *c
+				cc.Rep = &lib.Report{Counters: map[string]int64{}}
+				c18CrossKind(&cc)
+				var out []lib.Violation
+				for _, v := range cc.Rep.Violations {
+					if cv, ok := v.Case.(c18Case); ok && cv.Name == cs.Name && cv.Type == cs.Type && fmt.Sprint(cv.Ops) == fmt.Sprint(cs.Ops) && tagString(cv.Tags) == tagString(cs.Tags) {
+						out = append(out, v)
+					}
+				}
+				return out
 			case "distinct":
 				if len(cs.Ops) == 1 {
 					cc := *c
